@@ -33,6 +33,7 @@ def tree(v, env, memo=None):
     if isinstance(v, PList): return {"__list__": [tree(x, env, memo) for x in v.items]}
     if isinstance(v, Vec): return {"__list__": [tree(x, env, memo) for x in v.xs]}
     if isinstance(v, Opaque): return None
+    if isinstance(v, dict): return None          # per-instance cache fields (attr.ib(factory=dict, init=False)): the native builder leaves them to the class
     raise Unsupported("cannot concretise %r" % type(v))
 
 
